@@ -57,6 +57,14 @@ Theorem C12_inherit : forall uc dc gc key,
 Proof. exact inherit_clauses. Qed.
 Print Assumptions C12_inherit.
 
+(** "... also the global one is taken if the setting is marked global": every setting of the man page's KEYS section
+    is read with getsettingglobal() by its filter exactly when the man page marks it "(global)"
+    (KEY_TABLE: setting, read globally by the code, marked global in doc/man/filterconf.5; finding F-C12-2). *)
+Theorem C12_global_keys : forall k code_global doc_global,
+  key_lookup k KEY_TABLE = Some (code_global, doc_global) -> code_global = doc_global.
+Proof. exact global_keys_match. Qed.
+Print Assumptions C12_global_keys.
+
 (** the concrete syntax behind [level_says]: a line that is just the key enables (value 1); "key=-1" as the first
     line about the key gives [Off]; "key=<integer>" gives the integer's meaning *)
 Theorem C12_syntax : forall key rest v,
